@@ -125,11 +125,33 @@ func fsShare(spec string, b bounds, fse *fsEnv) fsOut {
 	}
 	nSingle := len(stores)
 	stores = append(stores, twoManifestStores(b.Thorough)...)
+	nPairs := len(stores)
+	stores = append(stores, twinStores()...)
 	sampled := map[string]bool{}
 	for _, kind := range []string{"legacy", "cache"} {
 		legacy := kind == "legacy"
 		for si, st := range stores {
 			if si%k != i {
+				continue
+			}
+			if si >= nPairs {
+				if legacy {
+					// (a store that already holds two manifests differing only by letter case: the legacy lookup
+					// ranges over a Go map, which of the twins it meets first is not owned by the harness)
+					continue
+				}
+				res := fse.cacheTwinCase(st)
+				out.Counters["evaluations"]++
+				out.Counters["fs_queries"] += int64(res.queries)
+				if res.skipped != "" && len(res.fails) == 0 {
+					out.Counters["fs_stores_not_buildable"]++
+					continue
+				}
+				out.Nontrivial = append(out.Nontrivial, evid.Hash("fs:twin:"+strings.Join(st, "\x01")))
+				out.Counters["cases_family_FC3"]++
+				for _, f := range res.fails {
+					local.add(f.sig, f.msg, storeCase("cache-twins", st, 1), 1000*len(st)+len(st[0])+len(st[1]), "cache-twins:"+strings.Join(st, "\x01"))
+				}
 				continue
 			}
 			rounds := 1
@@ -281,7 +303,7 @@ func main() {
 
 	r.Rule("Every generated string is fed unchanged to every entry point (model.ParseName/ParseNameBare/ParseNameFromFilepath, names.Parse+default mask, blob.nameToPath, Registry.parseNameExtended/splitExtended, server.ParseModelPath(..).GetManifestPath, server.GetBlobsPath, blob.ParseDigest+DiskCache.GetFile). " +
 		"Spaces, all enumerated completely: S = all strings of <= n symbols over the 17-symbol alphabet in bounds.sigma (thorough: the layer of exactly n symbols runs last, first over the 12-symbol bounds.sigma_core, then the strings containing one of the other 5 symbols); N = every name form (m, m:t, n/m, m@d, n/m:t, h/n/m, m:t:x, h/n/m:t, h/n/m/t, n:t/m:t, h\\n\\m\\t) with every part drawn from bounds.part_alphabet (lengths 79/80/81/349/350/351, '.', '..', empty, placeholder, separator/control/non-ASCII bytes, the defaults in both cases); W = 5-part forms over a 12-value alphabet; X = scheme x name x @digest decorations; D = digest prefix x separator x body(63/64/65, lower/upper/mixed/zero, non-hex or traversal bytes at each end and inside) x suffix x lead; E = a well-formed digest with every sigma string of <= k symbols inserted at / overwriting 8 offsets. " +
-		"F = real-directory cases: for every sigma string of <= 4 symbols plus 15 spelled-out names that the real parser accepts, the manifest is created with the real WriteManifest / DiskCache.Link, the directory tree is listed, and every case variant of the name is resolved through getExistingName+ParseNamedManifest+ParseModelPath and through parseNameExtended+DiskCache.manifestPath/Resolve/Unlink; F2 = the same with every pair of distinct h/n/m:t names over {lower, upper, other} per part in the store. " +
+		"F3 = DiskCache stores that already hold two manifests differing only by letter case (placed by hand): every spelling must address one and the same of them; F = real-directory cases: for every sigma string of <= 4 symbols plus 15 spelled-out names that the real parser accepts, the manifest is created with the real WriteManifest / DiskCache.Link, the directory tree is listed, and every case variant of the name is resolved through getExistingName+ParseNamedManifest+ParseModelPath and through parseNameExtended+DiskCache.manifestPath/Resolve/Unlink; F2 = the same with every pair of distinct h/n/m:t names over {lower, upper, other} per part in the store. " +
 		"A case is non-trivial when at least one entry point accepts the string, i.e. a path or a parsed name was actually derived and checked (F cases: the store could be built); distinct_nontrivial counts distinct such inputs.")
 	r.Assume(
 		"accepted means: model.Name.IsValid() for the model parser; fully qualified after the default mask is merged (what Registry.parseName does) for the names parser; err == nil for nameToPath, parseNameExtended, GetManifestPath, GetBlobsPath, ParseDigest. A names.Name that is IsValid() but not yet masked is never printed by ollama, so round-tripping bare partial names is observed (coverage.observations) but not demanded",
@@ -532,7 +554,7 @@ func replay(path string, e *env, fse *fsEnv) int {
 		s := unhex(c.Hex)
 		e.describe(s)
 		fails = e.checkStr(s, true).fails
-	case "legacy", "cache":
+	case "legacy", "cache", "cache-twins":
 		var st []string
 		for _, h := range c.Store {
 			st = append(st, unhex(h))
@@ -543,6 +565,8 @@ func replay(path string, e *env, fse *fsEnv) int {
 				c.Rounds = 1
 			}
 			res = fse.legacyCase(st, c.Rounds, true)
+		} else if c.Kind == "cache-twins" {
+			res = fse.cacheTwinCase(st)
 		} else {
 			res = fse.cacheCase(st, true)
 		}
